@@ -67,6 +67,7 @@ class Engine:
             except queue.Empty:
                 return out, False
             if ln is None:
+                self.q.put(None)          # end of output stays visible to later reads (the process is gone)
                 return out, False
             out.append(ln)
             if pred(ln):
